@@ -123,6 +123,9 @@ def judge_obs(sheet, settings, ob, extra_names=()):
         elif ob["after"][n][1] != st:
             v("input/inode_or_mtime_changed", "input %s was rewritten (inode/mtime %s -> %s)" % (n, st, ob["after"][n][1]))
     adjusted = {c["selector"] for c in (ob["cards"] or [])}
+    if ob["counts"]["tuned"] > 0 and not adjusted:
+        # the report could not be read (its markup changed): every rule with a text colour may have been adjusted
+        adjusted = {sel for sel, it, _w in sheet.rules if it.has_text_colour()}
     junk = any(any(isinstance(d, str) and not d.startswith("/*") for d in it.decls) for _, it, _ in sheet.rules)
     dropped = ob["out_text"] is None
     expected_new = set() if dropped else {ob["outname"]}
@@ -260,8 +263,6 @@ def jobs(ctx):
     rules2 = [("lit_fail", "var_t"), ("var_t", "lit_own_bg"), ("root_literal", "var_t")] if q else \
         [(a, b) for a in centre for b in ("lit_fail", "var_t", "lit_own_bg", "unfixable", "sp_rgba", "repeated")]
     pairs = list(itertools.product(P, repeat=2))
-    if q:
-        pairs = pairs[::3]
     for p1, p2 in pairs:
         for a, b in rules2:
             out.append(([(a, "none"), (b, "none")], [(0, PT[p1]), (1, PT[p2])], S1))
